@@ -242,6 +242,16 @@ def gen_universe(rnd, uid):
                      '[F2 Vendor]\nmatch: fuzzy(field.vendor, "STARBUCKS", 0.95)\ntags: vendor\n'}
       files['F3'] = {'suffix': '.csv', 'text': 'Pattern,Merchant,Category,Subcategory,Tags\n'
                      '"fuzzy(""AMAZON"", 0.95)",Amazon F3,Strict-F3,s,\n"fuzzy(""STARBUCKS"", 0.97)",Sbux F3,Strict-F3,c,\n'}
+    # text cells of a supplemental row that look like numbers, read by attribute for SOME transactions only (behind the
+    # amount filter) and by subscript elsewhere: rows must never be rewritten by an evaluation
+    files['A']['text'] = insert_rule(files['A']['text'], '',
+                                     f'[Aqty {k.title()}]\nmatch: contains("{k}") and any(r.qty == "2" for r in orders if r.amount == amount)\n'
+                                     f'tags: qty-attr\n\n[Asub {k.title()}]\nmatch: contains("{k}") and any(r[\'qty\'] == "2" for r in orders)\n'
+                                     f'tags: qty-sub, {{orders[0][\'fee\']}}\n')
+    if full:
+        # a *.rules file whose content is legacy CSV (merchant_categories.csv renamed by hand): the .rules parser rejects
+        # it, the CSV fallback of get_all_rules reads it
+        files['R'] = {'suffix': '.rules', 'text': f'Pattern,Merchant,Category,Subcategory\n{k},{k.title()} R,Renamed-R,csv\nNETFLIX,Netflix R,Subs-R,tv\n'}
     if full:
         # the same transaction handed over WITHOUT supplemental rows (legacy amex/boa parsers) and with OTHER rows
         for base in (f'{k} ORDER A1', f'{k}5 MKTP'):
@@ -293,8 +303,10 @@ def gen_universe(rnd, uid):
             'data_sources_alt': {'orders': [{'item': 'Lamp', 'amount': 50.0, 'ref': 'A1', 'date': '2025-09-01'},
                                             {'item': 'Desk', 'amount': 31.0, 'ref': 'Z9', 'date': {'__date__': '2025-01-02'}}],
                                  'refunds': [{'ref': 'A1', 'amount': 31.0}]},
-            'data_sources': {'orders': [{'item': 'Book', 'amount': 50.0, 'ref': 'A1', 'date': {'__date__': '2025-05-12'}},
-                                        {'item': 'Pen', 'amount': 5.0, 'ref': 'B2', 'date': '06/15/2025'}]}}
+            'data_sources': {'orders': [{'item': 'Book', 'amount': 50.0, 'ref': 'A1', 'date': {'__date__': '2025-05-12'},
+                                         'qty': '2', 'fee': '$1,299.00', 'code': '007'},
+                                        {'item': 'Pen', 'amount': 5.0, 'ref': 'B2', 'date': '06/15/2025',
+                                         'qty': '1', 'fee': '-12.50', 'code': 'X1'}]}}
 
 
 def gen_op(rnd, uni, weights=(30, 35, 12, 8, 12, 3)):
@@ -429,8 +441,20 @@ def rewrite_histories(uni):
     out.append([{'op': 'engparse', 'file': 'A'}, {'op': 'engmatch', 'txn': ord_a1}, {'op': 'engmatch', 'txn': ord_b2}])
     out.append([{'op': 'eval', 'src': e, 'txn': ord_a1}, {'op': 'eval', 'src': e, 'txn': ord_b2}, {'op': 'eval', 'src': e, 'txn': ord_a1}])
     out.append([{'op': 'eval', 'src': e, 'txn': ord_a1}, {'op': 'load', 'file': 'A2', 'order': 'cli'}, {'op': 'classify', 'txn': ord_b2}])
+    # numeric-looking text cells: attribute read reached only for the amount-50 transaction, subscript read for all
+    qa, qs = '[r.qty for r in orders if r.amount == amount]', "[r['qty'] for r in orders]"
+    out.append([{'op': 'eval', 'src': qs, 'txn': wire}, {'op': 'eval', 'src': qa, 'txn': tw1}, {'op': 'eval', 'src': qs, 'txn': wire},
+                {'op': 'eval', 'src': "[r.fee for r in orders] == [r['fee'] for r in orders]", 'txn': wire}])
+    out.append([{'op': 'load', 'file': 'A', 'order': 'cli'}, {'op': 'classify', 'txn': wire}, {'op': 'classify', 'txn': tw1},
+                {'op': 'classify', 'txn': wire}])
+    out.append([{'op': 'engparse', 'file': 'A'}, {'op': 'engmatch', 'txn': tw1}, {'op': 'engmatch', 'txn': wire}])
     if not uni.get('full'):
         return out
+    # a .rules path that fails to parse and is read as CSV instead: alone in the CLI's order, reloaded, after another failure
+    out.append([{'op': 'load', 'file': 'R', 'order': 'cli'}, {'op': 'classify', 'txn': tw1}])
+    out.append([{'op': 'load', 'file': 'R'}, {'op': 'classify', 'txn': tw1}, {'op': 'load', 'file': 'R'}, {'op': 'classify', 'txn': tw1}])
+    out.append([{'op': 'load', 'file': 'D', 'order': 'cli'}, {'op': 'load', 'file': 'R'}, {'op': 'classify', 'txn': tw1},
+                {'op': 'load', 'file': 'D'}, {'op': 'load', 'file': 'R', 'order': 'cli'}, {'op': 'classify', 'txn': tw1}])
     # most_specific: a rule text scored under P1 (priority 90), then P2 (same text, priority 10) decides between its rules
     for a, b in (('P1', 'P2'), ('P2', 'P1')):
         out.append([{'op': 'load', 'file': a, 'order': 'cli'}, {'op': 'classify', 'txn': tw1}, {'op': 'classify', 'txn': wire},
@@ -512,15 +536,21 @@ class Fresh:
         self.uni, self.memo, self.spawned = uni, {}, 0
 
     @staticmethod
-    def key(prefix, op):
-        return json.dumps([prefix, op], sort_keys=True)
+    def canon(o):
+        """the reference for a load is ALWAYS get_all_rules first: which of get_transforms / get_tag_only_rules /
+        get_all_rules a caller asks first must not matter (the model's Load f is one operation)"""
+        return {k: v for k, v in o.items() if k != 'order'} if o.get('op') == 'load' else o
+
+    @classmethod
+    def key(cls, prefix, op):
+        return json.dumps([[cls.canon(x) for x in prefix], cls.canon(op)], sort_keys=True)
 
     def need(self, reqs, pool):
         todo = {}
         for prefix, op in reqs:
             k = self.key(prefix, op)
             if k not in self.memo and k not in todo:
-                todo[k] = (prefix, op)
+                todo[k] = ([self.canon(x) for x in prefix], self.canon(op))
         futs = {k: pool.submit(run_history, self.uni, p + [o], True) for k, (p, o) in todo.items()}
         for k, f in futs.items():
             self.memo[k] = f.result()[0]
@@ -975,6 +1005,8 @@ def main(tier):
         'a rule FILE in the model is its content (+ match mode); the path only names where it lives: every .rules load of a process is '
         'written to one and the same path (likewise every CSV load), so a reload after a rewrite is the normal case; file content does '
         'not change between the calls of ONE load (get_transforms / get_tag_only_rules / get_all_rules, either order)',
+        'a load is ONE operation: the fresh-process reference always calls get_all_rules first, whatever order (CLI order or not) the '
+        'in-process load used - the rule set must not depend on which getter was asked first',
         'cached ASTs / compiled patterns are values in the model; that the implementation never changes one after storing it is CHECKED '
         'after every operation (ast.dump of each _expression_cache entry = dump of a new parse of its key; pattern/flags of each '
         '_regex_cache entry = re.compile(key, re.IGNORECASE)): signature C07/cached-value-mutated; cache keys are str; set/dict order, object identities and message texts are not compared',
@@ -1085,11 +1117,11 @@ def main(tier):
         small = shrink(u, h, pos, sig, pool, budget=30 if tier == 'quick' else 120)
         u2, h2 = prune(u, small)
         r2 = run_history(u2, h2)
-        f2 = run_history(u2, replay_prefix(h2[:-1], h2[-1]) + [h2[-1]], True)[0]
+        f2 = run_history(u2, [Fresh.canon(x) for x in replay_prefix(h2[:-1], h2[-1]) + [h2[-1]]], True)[0]
         run.violation('history', {
             'kind': 'counterexample', 'universe': u2, 'history': h2, 'position': len(h2) - 1,
             'observed_in_process': r2[-1]['out'], 'frame_changes': r2[-1]['frame'], 'mutated_cache_entries': r2[-1].get('mutated'),
-            'expected_fresh_process': f2['out'], 'fresh_history': replay_prefix(h2[:-1], h2[-1]) + [h2[-1]],
+            'expected_fresh_process': f2['out'], 'fresh_history': [Fresh.canon(x) for x in replay_prefix(h2[:-1], h2[-1]) + [h2[-1]]],
             'obligation': 'c07_history_independent / c07_classify_frame on the implementation',
             'n_failing_comparisons': len(where), 'shrunk_from': pos + 1, 'broken': broken}, signature=sig)
 
